@@ -1,5 +1,6 @@
 import GeoVerif.Corr.Proto
 import GeoVerif.Model.Harmonic
+import GeoVerif.Model.HarmonicGlue
 /-!
 Correspondence for C19.
 
@@ -139,29 +140,176 @@ def handleShm (args res : List String) : Verdict :=
 
 /-! ### mag -/
 
+def sameF (a b : Float) : Bool := a == b || (a.isNaN && b.isNaN)
+
+/-- both copies of the epoch logic against the one definition `epochSplit` / `fieldCombine`:
+    (1) `MagneticModel::FieldGeocentric` = `fieldOfTime` on the implementation's own per-epoch gradients;
+    (2) what `MagneticModel::Circle` stored in the circle (`_t1`, `_interpolate`, `_dt0`) = `epochSplit`, and
+        `MagneticCircle::FieldGeocentric` = `circleField` on the circle's own per-epoch sums -/
 def handleMag (args res : List String) : Verdict :=
-  -- seed norm nmod ncon N M dt0 t lat lon h Nmax Mmax | t0 dt0 rad k nb g…
+  -- seed norm nmod ncon N M dt0 t lat lon h Nmax Mmax | t0 dt0 rad k nb g… [t1c interpc constc dt0c k0×3 k1×3 k2×3 cG×6]
   match args with
-  | _seed :: _norm :: snmod :: sncon :: _N :: _M :: _dt :: st :: _lat :: _lon :: _h :: _Nmax :: _Mmax :: st0 :: sdt0 :: srad :: sk :: snb :: gs =>
-    match snmod.toNat?, sncon.toNat?, pfl st, pfl st0, pfl sdt0, pfl srad, sk.toInt?, snb.toNat?, gs.mapM pfl, res.mapM pfl with
-    | some nmod, some ncon, some t, some t0, some dt0, some rad, some k, some nb, some g, some [BX, BY, BZ, BXt, BYt, BZt] =>
+  | _seed :: _norm :: snmod :: sncon :: _N :: _M :: _dt :: st :: _lat :: _lon :: _h :: _Nmax :: _Mmax :: st0 :: sdt0 :: srad :: _sk :: snb :: gs =>
+    match snmod.toNat?, sncon.toNat?, pfl st, pfl st0, pfl sdt0, pfl srad, snb.toNat?, res.mapM pfl with
+    | some nmod, some ncon, some t, some t0, some dt0, some rad, some nb, some [BX, BY, BZ, BXt, BYt, BZt] =>
+      match (gs.take (3 * nb)).mapM pfl with
+      | none => .bad "parse (kernel values)"
+      | some g =>
       if g.length != 3 * nb || nb != nmod + 1 + ncon then .bad "parse (kernel values)" else
+      let E := epochSplit t t0 dt0 nmod
       let comp (j : Nat) : Float × Float × Float :=
         let B (i : Nat) : Float := g.getD (3 * i + j) 0
         let Bc : Float := if ncon > 0 then B (nmod + 1) else 0
-        let (fld, rate) := fieldAt B Bc t t0 dt0 k nmod
-        let n := epochIndex k nmod
+        let (fld, rate) := fieldOfTime B Bc t t0 dt0 nmod
+        let n := E.n
         let sc := fabs (B n) + fabs (B (n + 1)) * (1 + fabs ((t - t0) / dt0)) + fabs Bc + fabs (fld)
         (fld * (-rad), rate * (-rad), sc * rad)
       let chk (j : Nat) (b bt : Float) : Bool :=
         let (mf, mr, sc) := comp j
         fabs (mf - b) ≤ 1e-14 * sc && fabs (mr - bt) ≤ 1e-14 * sc * (1 + 1 / dt0)
-      if chk 0 BX BXt && chk 1 BY BYt && chk 2 BZ BZt then .ok
-      else
+      if !(chk 0 BX BXt && chk 1 BY BYt && chk 2 BZ BZt) then
         let (m0, r0, _) := comp 0; let (m1, r1, _) := comp 1; let (m2, r2, _) := comp 2
-        .bad s!"MagneticModel::FieldGeocentric: impl=({shw BX},{shw BY},{shw BZ}; {shw BXt},{shw BYt},{shw BZt}) time-interpolation model=({shw m0},{shw m1},{shw m2}; {shw r0},{shw r1},{shw r2}) epoch index {epochIndex k nmod}"
-    | _, _, _, _, _, _, _, _, _, _ => if res.head?.map (·.startsWith "!") == some true then .skip "rejected" else .bad "parse"
+        .bad s!"MagneticModel::FieldGeocentric: impl=({shw BX},{shw BY},{shw BZ}; {shw BXt},{shw BYt},{shw BZt}) time-interpolation model=({shw m0},{shw m1},{shw m2}; {shw r0},{shw r1},{shw r2}) epoch index {E.n}"
+      else
+      -- the circle's copy
+      match gs.drop (3 * nb) with
+      | [] => .ok
+      | st1 :: sip :: sct :: sdtc :: ks =>
+        match pfl st1, sip.toNat?, sct.toNat?, pfl sdtc, ks.mapM pfl with
+        | some t1c, some ipc, some ctc, some dtc, some [a0, a1, a2, b0, b1, b2, c0, c1, c2, GX, GY, GZ, GXt, GYt, GZt] =>
+          let tolT := 4 * eps53 * (fabs (t - t0) + Float.ofNat E.n * fabs dt0)
+          if !((t1c.isNaN && E.t1.isNaN) || fabs (t1c - E.t1) ≤ tolT) || (ipc != 0) != E.interp || (ctc != 0) != (ncon > 0) || !(sameF dtc dt0) then
+            .bad s!"MagneticModel::Circle: stored t1={shw t1c} interpolate={ipc} constterm={ctc} dt0={shw dtc}; epoch-selection model: n={E.n} t1={shw E.t1} interpolate={E.interp} (t={shw t} t0={shw t0} dt0={shw dt0} models={nmod})"
+          else
+            let Ec : Epoch Float := ⟨E.n, t1c, ipc != 0⟩
+            let one (K0 K1 Kc G Gt : Float) : Bool :=
+              let (fld, rate) := circleField Ec K0 K1 (if ctc != 0 then Kc else 0) dtc
+              let sc := (fabs K0 + fabs K1 * (1 + fabs (t1c / dtc)) + fabs Kc + fabs fld) * rad
+              fabs (fld * (-rad) - G) ≤ 1e-14 * sc && fabs (rate * (-rad) - Gt) ≤ 1e-14 * sc * (1 + 1 / dtc)
+            if one a0 b0 c0 GX GXt && one a1 b1 c1 GY GYt && one a2 b2 c2 GZ GZt then .ok
+            else .bad s!"MagneticCircle::FieldGeocentric: impl=({shw GX},{shw GY},{shw GZ}; {shw GXt},{shw GYt},{shw GZt}) differs from the combination model on the circle's own sums (t1={shw t1c}, interpolate={ipc})"
+        | _, _, _, _, _ => .bad "parse (circle kernel values)"
+      | _ => .bad "parse (circle kernel values)"
+    | _, _, _, _, _, _, _, _ => if res.head?.map (·.startsWith "!") == some true then .skip "rejected" else .bad "parse"
   | _ => if res.head?.map (·.startsWith "!") == some true then .skip "rejected" else .bad "parse"
+
+/-! ### fcomp -/
+
+def handleFcomp (args res : List String) : Verdict :=
+  match args.mapM pfl, res.mapM pfl with
+  | some [bx, by_, bz, bxt, byt, bzt], some [H, F, D, I, Ht, Ft, Dt, It] =>
+    let m : Comps Float := fieldComponents bx by_ bz bxt byt bzt
+    let e8 := 8 * eps53
+    let degF : Float := degree
+    let sH := fabs m.F + 1e-300
+    let angOk (a b : Float) : Bool := fabs (a - b) ≤ 1e-13 * 180 || fabs (fabs (a - b) - 360) ≤ 1e-13 * 360
+    let cH := if m.H == 0 then fabs bxt + fabs byt else (fabs (bx * bxt) + fabs (by_ * byt)) / m.H
+    let cD := if m.H == 0 then 0 else (fabs (by_ * bxt) + fabs (bx * byt)) / (m.H * m.H) / degF
+    let cF := if m.F == 0 then fabs m.Ht + fabs bzt + cH else (m.H * (fabs m.Ht + cH) + fabs (bz * bzt)) / m.F
+    let cI := if m.F == 0 then 0 else (fabs bz * (fabs m.Ht + cH) + fabs (m.H * bzt)) / (m.F * m.F) / degF
+    if !(fabs (H - m.H) ≤ e8 * sH && fabs (F - m.F) ≤ e8 * sH) then .bad s!"FieldComponents: H, F impl={shw H}, {shw F} model={shw m.H}, {shw m.F}"
+    else if !(angOk D m.D && angOk I m.I) then .bad s!"FieldComponents: D, I impl={shw D}, {shw I} model={shw m.D}, {shw m.I}"
+    else if !(fabs (Ht - m.Ht) ≤ e8 * cH + 1e-300 && fabs (Ft - m.Ft) ≤ 2 * e8 * cF + 1e-300 && fabs (Dt - m.Dt) ≤ e8 * cD + 1e-300 && fabs (It - m.It) ≤ 2 * e8 * cI + 1e-300) then
+      .bad s!"FieldComponents: rates impl=({shw Ht}, {shw Ft}, {shw Dt}, {shw It}) model=({shw m.Ht}, {shw m.Ft}, {shw m.Dt}, {shw m.It})"
+    else .ok
+  | _, _ => .bad "parse"
+
+/-! ### gzon -/
+
+def handleGzon (args res : List String) : Verdict :=
+  -- seed norm N M dgm fl Nmax | nmx mult amult GMref GMmodel (cC_n Jn_n)… ; res: dzonal0 len zonal…
+  match args with
+  | _seed :: snorm :: _N :: _M :: _dgm :: _fl :: _Nmax :: snmx :: smult :: samult :: sgr :: sgm :: rest =>
+    match snorm.toNat?, snmx.toInt?, pfl smult, pfl samult, pfl sgr, pfl sgm, rest.mapM pfl, res with
+    | some norm, some nmxI, some mult, some amult, some GMref, some GMmodel, some kv, sdz :: slen :: sz =>
+      match pfl sdz, slen.toNat?, sz.mapM pfl with
+      | some dz, some len, some z =>
+        if z.length != len then .bad "parse (zonal length)" else
+        if nmxI < 0 then (if len == 1 then .ok else .bad "zonal table of an empty model") else
+        let nmx := nmxI.toNat
+        let cC (n : Nat) : Float := kv.getD (2 * n) 0
+        let Jn (n : Nat) : Float := kv.getD (2 * n + 1) 0
+        let full := norm == 0
+        let mz := zonalTable full mult amult Jn cC nmx
+        let mdz := (GMref - GMmodel) / GMmodel
+        let k := min mz.length z.length
+        let pre := (List.range k).all fun i => fabs (mz.getD i 0 - z.getD i 0) ≤ 8 * eps53 * fabs (mz.getD i 0)
+        -- a different exit point is acceptable only where the decision `t == r` is within round-off
+        let borderline : Bool :=
+          if mz.length == z.length then true else
+          let n := k + 1       -- the degree at which the shorter table stopped
+          let j := n / 2
+          let s := mult * Float.pow amult (Float.ofNat j) * fabs (Jn n) / (if full then Float.sqrt (Float.ofNat (2 * n + 1)) else 1)
+          s ≤ 4 * eps53 * fabs (cC n) && fabs s ≥ 0.25 * eps53 * fabs (cC n)
+        if !(fabs (dz - mdz) ≤ 4 * eps53 * fabs mdz) then .bad s!"GravityModel: _dzonal0 impl={shw dz} model (GMref - GMmodel)/GMmodel={shw mdz}"
+        else if !pre then .bad s!"GravityModel: normal zonal terms impl={z.map shw} model of the constructor loop={mz.map shw}"
+        else if !borderline then .bad s!"GravityModel: the loop over the normal zonal terms stopped at a different degree: impl holds {z.length} entries, the model {mz.length} (nmx={nmx})"
+        else .ok
+      | _, _, _ => .bad "parse"
+    | _, _, _, _, _, _, _, _ => if res.head?.map (·.startsWith "!") == some true then .skip "rejected" else .bad "parse"
+  | _ => if res.head?.map (·.startsWith "!") == some true then .skip "rejected" else .bad "parse"
+
+/-! ### paths, rdco, gcaps, ngv -/
+
+def pstr (s : String) : Option String := (parseS s).map bytesToString
+
+/-- compile-time defaults (`GEOGRAPHICLIB_DATA` of the Config.h generated by `check`, `GEOGRAPHICLIB_*_DEFAULT_NAME`) -/
+def builtinData : String := "/usr/local/share/GeographicLib"
+
+def handlePaths (args res : List String) : Verdict :=
+  match args.mapM (·.toNat?), res.mapM pstr with
+  | some [kind, spec, data, nm], some [gotPath, gotName, vspec, vdata, vname] =>
+    let env (st : Nat) (v : String) : Option String := if st == 0 then none else if st == 1 then some "" else some v
+    let sub := if kind == 0 then "gravity" else "magnetic"
+    let wantPath := defaultPath (env spec vspec) (env data vdata) builtinData sub
+    let wantName := defaultName (env nm vname) (if kind == 0 then "egm96" else "wmm2025")
+    if gotPath != wantPath then .bad s!"default path: impl='{gotPath}' lookup model='{wantPath}'"
+    else if gotName != wantName then .bad s!"default name: impl='{gotName}' lookup model='{wantName}'"
+    else .ok
+  | _, _ => .bad "parse"
+
+def handleRdco (args res : List String) : Verdict :=
+  match args.mapM (·.toInt?) with
+  | some [N0, M0, Nreq, Mreq, tr] =>
+    let trunc := tr != 0
+    match readDims trunc Nreq Mreq N0 M0, res with
+    | none, ["!E"] => .ok
+    | none, _ => .bad s!"readcoeffs accepted a header / request the model rejects (N0={N0} M0={M0} request {Nreq} {Mreq} truncate={trunc})"
+    | some (N, M), ["!E"] => .bad s!"readcoeffs rejected a block the model reads as degree {N}, order {M}"
+    | some (N, M), r =>
+      match r.mapM (·.toInt?) with
+      | some got =>
+        let C := (readSelC N0 N M).map (· + 1)
+        let S := (readSelS N0 N M).map fun k => -(k + 1)
+        let exp : List Int := [N, M, C.length, S.length] ++ C ++ S ++ [blockBytes N0 M0, 1, 1, 4]
+        if got == exp then .ok
+        else .bad s!"readcoeffs: impl (N M |C| |S| C… S… position next-block) = {got} model = {exp}"
+      | none => .bad "parse"
+  | _ => .bad "parse"
+
+def handleGcaps (args res : List String) : Verdict :=
+  match args.mapM (·.toNat?), res.mapM (·.toNat?) with
+  | some [caps, hz], some (got :: flags) =>
+    let T := capTableDoc
+    let eff := gcEffCaps T caps (hz != 0)
+    let members : List GcMember := [.gravity, .w, .v, .disturbance, .tGrad, .t, .sphericalAnomaly, .geoidHeight]
+    let exp := members.map fun m => if gcEnabled T eff m then 1 else 0
+    if got != eff then .bad s!"GravityCircle::Capabilities() = {got}, capability model = {eff} (caps={caps}, h = 0: {hz != 0})"
+    else if flags != exp then .bad s!"GravityCircle members returning a number (Gravity W V Disturbance T(lon,delta) T(lon) SphericalAnomaly GeoidHeight) = {flags}, capability model = {exp} (caps={caps}, h = 0: {hz != 0})"
+    else .ok
+  | _, _ => if res.head?.map (·.startsWith "!") == some true then .skip "rejected" else .bad "parse"
+
+def handleNgv (args res : List String) : Verdict :=
+  match args.mapM pfl, res.mapM pfl with
+  | some [_a, _GM, om, _f, X, Y, _Z], some [V0, phi, U, fX, fY, G0, G1, G2, g0, g1, g2] =>
+    let mphi := phiRot om X Y
+    let e4 := 4 * eps53
+    if !(fabs (phi - mphi) ≤ e4 * fabs mphi && fabs (fX - om * om * X) ≤ e4 * fabs (om * om * X) && fabs (fY - om * om * Y) ≤ e4 * fabs (om * om * Y)) then
+      .bad s!"NormalGravity::Phi: impl={shw phi} grad ({shw fX}, {shw fY}) model={shw mphi}"
+    else if !(fabs (U - (V0 + phi)) ≤ e4 * (fabs V0 + fabs phi) && fabs (g0 - (G0 + fX)) ≤ e4 * (fabs G0 + fabs fX) && fabs (g1 - (G1 + fY)) ≤ e4 * (fabs G1 + fabs fY) && sameF g2 G2) then
+      .bad s!"NormalGravity::U = V0 + Phi: U={shw U} V0={shw V0} Phi={shw phi}; gradients ({shw g0}, {shw g1}, {shw g2}) vs ({shw G0}, {shw G1}, {shw G2}) + ({shw fX}, {shw fY}, 0)"
+    else .ok
+  | _, _ => if res == ["!E"] then .skip "rejected" else .bad "parse"
 
 /-! ### ngu -/
 
@@ -188,8 +336,14 @@ def handleNgu (args res : List String) : Verdict :=
       let bu := b / u
       let rot := om * om * a * a / 2 * fabs (QzAlt (E / u) / QzAlt (E / b) * bu * bu * bu) * fabs (sb * sb - 1 / 3)
       let tolU := 16 * eps53 * (fabs GM / u * (1 + E / (u - E)) + om * om * (u * u + E * E)) + rot * (relq (E / u) + relq (E / b))
-      if fabs (mU - U) ≤ tolU then .ok
-      else .bad s!"NormalGravity (prolate): U impl={shw U} closed-form model={shw mU} (tolerance {tolU})"
+      let mJ := flatteningToJ2Prolate a GM om f
+      let w0 := E / b
+      let K := 2 * (a * om) * (a * om) * a / (15 * GM)
+      let corrJ := fabs (K * (1 - f) * (1 - f) * (1 - f) / QzAlt w0)
+      let tolJ := 16 * eps53 * fabs (f * (2 - f)) + corrJ * relq w0
+      if !(fabs (mU - U) ≤ tolU) then .bad s!"NormalGravity (prolate): U impl={shw U} closed-form model={shw mU} (tolerance {tolU})"
+      else if !(fabs (mJ - j2) ≤ tolJ) then .bad s!"NormalGravity (prolate): FlatteningToJ2 impl={shw j2} model={shw mJ} (tolerance {tolJ})"
+      else .ok
     else
       let mU := normalUSphere GM om a u sb cb
       let tolU := 16 * eps53 * (fabs GM / u + om * om * (u * u + a * a * (a / u) * (a / u) * (a / u)))
@@ -203,7 +357,18 @@ def handleNgj (args res : List String) : Verdict :=
   match args.mapM pfl, res.mapM pfl with
   | some [a, GM, om, J2], some [f, _j2] =>
     if f.isNaN then .skip "no solution (NaN)"
-    else if !(f > 1e-5 && f < 1) then .skip "not on the oblate branch of the model"
+    else if f < -1e-5 then
+      -- prolate branch: Q0 = Qf(-e2, true) = QzAlt(sqrt(-e2/(1 - e2)))
+      let e2 := f * (2 - f)
+      let h := j2ResidualProlate a GM om J2 e2
+      let w := Float.sqrt (-e2 / (1 - e2))
+      let K := 2 * (a * om) * (a * om) * a / (15 * GM)
+      let corr := fabs (K * (1 - f) * (1 - f) * (1 - f) / QzAlt w)
+      let tol := 64 * eps53 * (fabs e2 + 3 * fabs J2) + corr * (64 * eps53 * (1 + (3 / w) / fabs (QzAlt w * w * w * w)))
+      let fb := j2Flattening e2
+      if fabs h ≤ tol && fabs (fb - f) ≤ 8 * eps53 * fabs f then .ok
+      else .bad s!"NormalGravity::J2ToFlattening (prolate branch): returned f={shw f} (e2={shw e2}) has residual h(e2)={shw h} in the model of the Newton iteration (tolerance {tol}); e2/(1+sqrt(1-e2))={shw fb}"
+    else if !(f > 1e-5 && f < 1) then .skip "not on the oblate / prolate branches of the model"
     else
       let e2 := f * (2 - f)
       let h := j2Residual a GM om J2 e2
@@ -242,7 +407,14 @@ def handle (op : String) (args res : List String) : Option Verdict :=
   | "mag" => some (handleMag args res)
   | "ngu" => some (handleNgu args res)
   | "ngj" => some (handleNgj args res)
-  | "sh" | "grav" | "ng" | "cofbad" | "magx" => some (.skip "judged by the harness oracles on the implementation")
+  | "fcomp" => some (handleFcomp args res)
+  | "gzon" => some (handleGzon args res)
+  | "paths" => some (handlePaths args res)
+  | "rdco" => some (handleRdco args res)
+  | "gcaps" => some (handleGcaps args res)
+  | "ngv" => some (handleNgv args res)
+  | "sh" | "grav" | "ng" | "cofbad" | "magx" | "gvacc" | "mgacc" | "modelerr" | "shctor" | "roots" | "gravtool" | "magtool" =>
+    some (.skip "judged by the harness oracles on the implementation")
   | _ => none
 
 end GeoVerif.Corr.C19
